@@ -214,8 +214,10 @@ def main():
     if i0 < 0:
         die("addTemplate: loop over targets")
     loop = re.sub(r"\s+", " ", b[i0:])
-    if not re.search(r"createXalanMatchPatternData\( \*theTemplate, m_patternCount, tempString, \*xp, xp->getExpression\(\)\.getCurrentPattern\(\), data\[i\]\.getDefaultPriority\(\)\); \+\+m_patternCount;", loop):
+    mc = re.search(r"createXalanMatchPatternData\( \*theTemplate, m_patternCount, tempString, \*xp, xp->getExpression\(\)\.getCurrentPattern\(\), data\[i\]\.getDefaultPriority\(\)(, i)?\); \+\+m_patternCount;", loop)
+    if not mc:
         die("addTemplate: creation of XalanMatchPatternData / position counter")
+    entry_has_alt = mc.group(1) is not None
     route = []   # (pseudo, ttype-cond, [lists])
     chain = loop[loop.find("++m_patternCount;"):]
     # top-level chain on tempString
@@ -317,8 +319,35 @@ def main():
         dup_by_string = True
     elif re.search(r"if ?\(!patterns->empty\(\) && !\(prevMatchPat != 0 && prevMatchPat->getTemplate\(\) == matchPat->getTemplate\(\)\)\)", b):
         dup_by_string = False
+    elif re.search(r"if ?\(!patterns->empty\(\) && !\(bestMatchedPattern != 0 && bestMatchedPattern->getTemplate\(\) == matchPat->getTemplate\(\)\)\)", b):
+        dup_by_string = False
+        skip_best = True
     else:
         die("findTemplate: duplicate-pattern test of the reporting body has an unexpected shape")
+    # ---- whole-pattern match + match-time priority (old) or per-alternative match + filed priority (new)
+    n_whole = len(re.findall(r"xpath->getMatchScore\(targetNode, \*this, executionContext\)", b))
+    n_alt = len(re.findall(r"matchPat->getMatchScore\(targetNode, \*this, executionContext\)", b))
+    old_prio = re.search(r"const double priorityVal = rule->getPriority\(\); const double priorityOfRule = \(matchScoreNoneValue != priorityVal\) "
+                         r"\? priorityVal : XPath::getMatchScoreValue\(score\);", b) is not None
+    new_prio = re.search(r"const double priorityOfRule = matchPat->getPriorityOrDefault\(\);", b) is not None
+    first_old = re.search(r"if ?\(priorityOfRule > priorityOfBestMatched\) \{ nConflicts = 0;", b) is not None
+    first_new = re.search(r"if ?\(0 == bestMatchedPattern \|\| priorityOfRule > priorityOfBestMatched\) \{ nConflicts = 0;", b) is not None
+    if n_whole == 2 and n_alt == 0 and old_prio and not new_prio and first_old and not entry_has_alt and not locals().get("skip_best"):
+        per_alt = False
+    elif n_whole == 0 and n_alt == 2 and new_prio and not old_prio and first_new and entry_has_alt and locals().get("skip_best"):
+        mh = read("src/xalanc/XSLT/XalanMatchPatternData.hpp")
+        mh = re.sub(r"\s+", " ", mh)
+        if not re.search(r"return m_matchPattern->getMatchScore\( theNode, theResolver, theExecutionContext, m_alternative\);", mh):
+            die("XalanMatchPatternData::getMatchScore has an unexpected shape")
+        xb = re.sub(r"\s+", " ", cpp)
+        if not re.search(r"while ?\(theAlternative > 0 && m_expression\.getOpCodeMapValue\(opPos\) == XPathExpression::eOP_LOCATIONPATHPATTERN\) "
+                         r"\{ opPos = m_expression\.getNextOpCodePosition\(opPos\); --theAlternative; \}", xb) or \
+           len(re.findall(r"score = locationPathPattern\(executionContext, \*node, opPos\);", xb)) != 2:
+            die("XPath::getMatchScore(…, theAlternative) has an unexpected shape")
+        per_alt = True
+    else:
+        die("findTemplate: mixture of whole-pattern and per-alternative matching (%d/%d, %s/%s, %s/%s, %s)" % (
+            n_whole, n_alt, old_prio, new_prio, first_old, first_new, entry_has_alt))
     any_any = [ls for p_, c_, ls in route if p_ == 5 and c_ == ttype["eAny"]]
     if len(any_any) != 1:
         die("addTemplate: eAny branch")
@@ -343,6 +372,22 @@ def main():
         node_root = False
     else:
         die("stepPattern: eMATCH_IMMEDIATE_ANCESTOR guard has an unexpected shape: %r" % cond)
+
+    # ---- ElemTemplate::startElement: does a template invoked by xsl:call-template become the current template rule?
+    et = re.sub(r"\s+", " ", read("src/xalanc/XSLT/ElemTemplate.cpp"))
+    m = re.search(r"ElemTemplate::startElement\(StylesheetExecutionContext& executionContext\) const \{ ParentType::startElement\(executionContext\); (.*?) return beginExecuteChildren\(executionContext\); \}", et)
+    if not m:
+        die("ElemTemplate::startElement")
+    body = m.group(1).strip()
+    if body == "executionContext.pushCurrentTemplate(this);":
+        call_changes = True
+    elif re.fullmatch(r"const ElemTemplateElement\* const theInvoker = executionContext\.getInvoker\(\); if \(theInvoker != 0 && "
+                      r"theInvoker->getXSLToken\(\) == StylesheetConstructionContext::ELEMNAME_CALL_TEMPLATE\) \{ "
+                      r"executionContext\.pushCurrentTemplate\(executionContext\.getCurrentTemplate\(\)\); \} else \{ "
+                      r"executionContext\.pushCurrentTemplate\(this\); \}", body):
+        call_changes = False
+    else:
+        die("ElemTemplate::startElement has an unexpected shape: %r" % body[:300])
 
     os.makedirs(os.path.dirname(OUT), exist_ok=True)
     L = []
@@ -377,11 +422,17 @@ def main():
     L.append("/-- the reporting body skips an entry whose pattern string and priority equal the previous one's (unchanged code);"
              " false: it skips further entries of the same template only -/")
     L.append("def dupSkipByPatternString : Bool := %s" % ("true" if dup_by_string else "false"))
+    L.append("/-- each entry matches only its own union alternative and both findTemplate bodies rank by the filed priority"
+             " (with proposed/C10-union-per-alternative.diff); false: whole-pattern match, match-time priority in the reporting body -/")
+    L.append("def perAlternativeMatch : Bool := %s" % ("true" if per_alt else "false"))
     L.append("/-- a bare id()/key() target (pseudo ANY, type eAny) is filed in every list; false: element and attribute wildcard lists only (unchanged code) -/")
     L.append("def functionTargetsAllLists : Bool := %s" % ("true" if fn_all else "false"))
     L.append("/-- `XPath::stepPattern` tests a final child-axis step on the root node too, so `node()` accepts the root"
              " (false once the guard `nodeType != DOCUMENT_NODE` is in the source) -/")
     L.append("def nodeTestAcceptsRoot : Bool := %s" % ("true" if node_root else "false"))
+    L.append("/-- a template invoked by xsl:call-template becomes the current template rule (unchanged code);"
+             " false with proposed/C10-call-template-current-rule.diff -/")
+    L.append("def callTemplateChangesCurrentRule : Bool := %s" % ("true" if call_changes else "false"))
     L.append("end XalanModel.Generated.C10")
     txt = "\n".join(L) + "\n"
     old = None
